@@ -214,6 +214,31 @@ pub fn run_c01(ctx: &Ctx) -> Outcome {
     let mut p5 = Profile::safe();
     p5.protocols = vec![5];
     drive(ctx, &mut out, 2, &p5, ctx.n(15_000, 500_000), want, judge_c01, None);
+    // very long programs: exhausted / constant fuzzer bytes make every choice fall back to the same
+    // index, which leaves tens of thousands of items for the collapse phase
+    if !out.failed() {
+        let sizes: &[usize] = if ctx.thorough() { &[10_500, 20_500, 30_000, 50_000] } else { &[10_500, 20_500] };
+        let mut items = vec![];
+        for p in 0u8..=5 {
+            for &n in sizes {
+                for bytes in [vec![], vec![0xffu8; 32]] {
+                    let mut c = GenCase::default_for(p, 0);
+                    c.min_opcodes = n;
+                    c.max_opcodes = n;
+                    c.entropy = Entropy::Bytes(bytes);
+                    items.push(c);
+                }
+            }
+        }
+        let (st, found) = crate::runner::run_enum(items, |c, st| {
+            st.label("very long program (>= 10 500 opcodes) from exhausted / constant bytes");
+            replay_judge(ctx, judge_c01, want, c)
+        });
+        out.stats.merge(st);
+        if let Some((c, f)) = found {
+            out.violation = Some(Violation { fail: f, case: serde_json::to_value(&c).unwrap() });
+        }
+    }
     crate::props::tree::run_tree(ctx, &mut out, ctx.n(3, 5) as usize, crate::props::tree::TreeOracle::C01);
     out.assumptions = vec![
         "reference semantics = CPython pickletools.dis flat stack (MARK is an ordinary element), not a real unpickler".into(),
